@@ -1626,6 +1626,15 @@ class TimePoint:
         new_timepoint._time_zone = self._time_zone._copy()
         return new_timepoint
 
+    def _get_without_end_of_day(self) -> "TimePoint":
+        """Return self, or an equivalent copy at 00:00 the next day if this
+        is at 24:00 (the end-of-day form)."""
+        if self._truncated or self._hour_of_day != CALENDAR.HOURS_IN_DAY:
+            return self
+        new = self._copy()
+        new._tick_over()
+        return new
+
     def get_props(self) -> list:
         """Return the data properties of this TimePoint as a list of tuples."""
         props = []
@@ -1642,7 +1651,7 @@ class TimePoint:
             # TODO: Convert truncated TimePoints to UTC when not buggy
             return hash(
                 tuple(getattr(self, attr) for attr in self.__slots__))
-        point = self.to_utc()
+        point = self._get_without_end_of_day().to_utc()
         return hash((*point.get_calendar_date(),
                      *point.get_hour_minute_second()))
 
@@ -1669,7 +1678,8 @@ class TimePoint:
                 if self_attr != other_attr:
                     return _operator_map[op](self_attr, other_attr)
             return True
-        other = other.to_time_zone(self._time_zone)
+        self = self._get_without_end_of_day()
+        other = other._get_without_end_of_day().to_time_zone(self._time_zone)
         if self.get_is_calendar_date():
             my_date = self.get_calendar_date()
             other_date = other.get_calendar_date()
@@ -1699,7 +1709,9 @@ class TimePoint:
         if isinstance(other, TimePoint):
             if other > self:
                 return -1 * (other - self)
-            other = other.to_time_zone(self._time_zone)
+            self = self._get_without_end_of_day()
+            other = other._get_without_end_of_day().to_time_zone(
+                self._time_zone)
             my_year, my_day_of_year = self.get_ordinal_date()
             other_year, other_day_of_year = other.get_ordinal_date()
             diff_day = my_day_of_year - other_day_of_year
